@@ -88,9 +88,10 @@ class ListTensor(Operator):
             and sub_equals(expressions, 0, 0)
         ):
             indices = [sub(e, 0, 1).indices() for e in expressions]
+            ct_indices = [sub(e, 1).indices() for e in expressions]
+            # Each row must bind exactly the trailing indices, in the same order
             if all(
-                i[0] == k and all(isinstance(subindex, Index) for subindex in i[1:])
-                for k, i in enumerate(indices)
+                i[0] == k and i[1:] == ci for k, (i, ci) in enumerate(zip(indices, ct_indices))
             ):
                 return sub(e0, 0, 0)
 
